@@ -384,6 +384,7 @@ func checkC04(c *core.Ctx) error {
 	checkInverseRun(c, d)
 	checkDeterminantRun(c, d)
 	checkPermutedRows(c)
+	checkRunningMaximum(c)
 	return nil
 }
 
@@ -662,6 +663,116 @@ func checkPermutedRows(c *core.Ctx) {
 			k++
 			c.Check(ok2, "C04.R6", cons, fmt.Sprintf("access #%d %s", k, types.ExprString(ce)), ce.Pos(),
 				"the row index "+types.ExprString(row)+" is not taken through the row permutation "+perm.Name()+": after a row exchange this addresses a different row than every other access of the routine")
+			return true
+		})
+	})
+}
+
+// checkRunningMaximum (C04.R7): the pivot search is an arg-max loop: `if candidate > reference { maxrow = j }`. The
+// reference has to be the value at the row chosen so far: either it is an expression that reads the argmax variable, or
+// it is a cached variable that the same branch updates together with the argmax. A cached reference that is never
+// updated selects the last row that beats the first candidate, not the largest.
+func checkRunningMaximum(c *core.Ctx) {
+	c.Rule("C04.R7", "pivot search: the reference of the arg-max comparison reads the current arg-max, or is a cached value updated in the same branch", 2)
+	p := c.Pkg("algorithm/gaussJordan")
+	if p == nil {
+		c.Unknown("C04.R7", "algorithm/gaussJordan", "package loaded", token.NoPos, "not loaded")
+		return
+	}
+	info := p.TypesInfo
+	pkg := p
+	core.EachFunc(p, func(_ *ast.File, fd *ast.FuncDecl) {
+		if fd.Body == nil {
+			return
+		}
+		cons := c.FuncName(pkg, fd)
+		ast.Inspect(fd.Body, func(n ast.Node) bool {
+			fs, ok := n.(*ast.ForStmt)
+			if !ok {
+				return true
+			}
+			init, ok := fs.Init.(*ast.AssignStmt)
+			if !ok || len(init.Lhs) != 1 {
+				return true
+			}
+			lv, ok := init.Lhs[0].(*ast.Ident)
+			if !ok {
+				return true
+			}
+			loopVar := info.Defs[lv]
+			ast.Inspect(fs.Body, func(m ast.Node) bool {
+				is, ok := m.(*ast.IfStmt)
+				if !ok {
+					return true
+				}
+				be, ok := ast.Unparen(is.Cond).(*ast.BinaryExpr)
+				if !ok || (be.Op != token.GTR && be.Op != token.LSS && be.Op != token.GEQ && be.Op != token.LEQ) {
+					return true
+				}
+				// body assigns argmax = loop variable
+				var argmax types.Object
+				assigned := map[types.Object]bool{}
+				for _, st := range is.Body.List {
+					as, ok := st.(*ast.AssignStmt)
+					if !ok {
+						continue
+					}
+					for i, l := range as.Lhs {
+						lid, ok := l.(*ast.Ident)
+						if !ok {
+							continue
+						}
+						o := info.Uses[lid]
+						assigned[o] = true
+						if i < len(as.Rhs) {
+							if rid, ok := ast.Unparen(as.Rhs[i]).(*ast.Ident); ok && info.Uses[rid] == loopVar && loopVar != nil {
+								argmax = o
+							}
+						}
+					}
+				}
+				if argmax == nil {
+					return true
+				}
+				// the side of the comparison that does not read the loop variable is the reference
+				reads := func(e ast.Expr, o types.Object) bool {
+					f := false
+					ast.Inspect(e, func(k ast.Node) bool {
+						if id, ok := k.(*ast.Ident); ok && info.Uses[id] == o {
+							f = true
+						}
+						return true
+					})
+					return f
+				}
+				ref := be.Y
+				if reads(be.Y, loopVar) && !reads(be.X, loopVar) {
+					ref = be.X
+				}
+				good := reads(ref, argmax)
+				if !good {
+					// cached reference: every variable it reads must be updated in the branch
+					good = true
+					any := false
+					ast.Inspect(ref, func(k ast.Node) bool {
+						if id, ok := k.(*ast.Ident); ok {
+							if v, ok := info.Uses[id].(*types.Var); ok && !v.IsField() && v.Parent() != v.Pkg().Scope() {
+								if b, ok := v.Type().Underlying().(*types.Basic); ok && b.Info()&types.IsNumeric != 0 {
+									any = true
+									if !assigned[v] {
+										good = false
+									}
+								}
+							}
+						}
+						return true
+					})
+					good = good && any
+				}
+				c.Check(good, "C04.R7", cons, "arg-max "+argmax.Name(), is.Pos(),
+					"the comparison "+types.ExprString(is.Cond)+" that selects "+argmax.Name()+" uses a reference that neither reads "+argmax.Name()+" nor is updated with it: the search keeps the last row that beats the first candidate instead of the largest")
+				return true
+			})
 			return true
 		})
 	})
